@@ -930,7 +930,8 @@ pub fn gen_pattern(rng: &mut Rng, cfg: &GenCfg) -> Node {
     ctx.expr(depth)
 }
 
-const TEXT_ALPHA: &[char] = &['a', 'a', 'a', 'b', 'b', 'c', 'é', '\n', '-', '1'];
+// 1-, 2-, 3- and 4-byte characters
+const TEXT_ALPHA: &[char] = &['a', 'a', 'a', 'a', 'b', 'b', 'b', 'c', 'é', 'é', '\n', '-', '1', '日', '😀'];
 
 /// Extra text length allowed in the thorough tier (set once, before any job runs).
 static TEXT_BONUS: std::sync::atomic::AtomicUsize = std::sync::atomic::AtomicUsize::new(0);
